@@ -47,6 +47,7 @@ func TestC16(t *testing.T) {
 		}
 		workloads.Extra(r, r.Rand(fmt.Sprintf("extra/%d", round)), nil)
 		workloads.RippleDest(r, r.Rand(fmt.Sprintf("ripple-dest/%d", round)), nil)
+		workloads.Bor(r, r.Rand(fmt.Sprintf("bor/%d", round)), nil)
 	}
 	workloads.EthRealSeal(r, r.Rand("eth-realseal"), nil)
 	m.Report()
